@@ -262,11 +262,55 @@ fn output_with_inline_datum(datum: &[u8]) -> Vec<u8> {
     o
 }
 
+/// a Babbage-era output whose value is [coin, {policy: {name: coin}}] (no assets when coin = 0)
+fn output_with_value(coin: u64) -> Vec<u8> {
+    let mut o = Vec::new();
+    head(5, 2, &mut o);
+    head(0, 0, &mut o);
+    let mut addr = vec![0x61u8];
+    addr.extend_from_slice(&[0x22; 28]);
+    cbor_bytes(&addr, &mut o);
+    head(0, 1, &mut o);
+    if coin == 0 {
+        head(0, 0, &mut o);
+    } else {
+        head(4, 2, &mut o);
+        head(0, coin, &mut o);
+        head(5, 1, &mut o);
+        cbor_bytes(&[0x33; 28], &mut o);
+        head(5, 1, &mut o);
+        cbor_bytes(b"tok", &mut o);
+        head(0, coin, &mut o);
+    }
+    o
+}
+
 pub fn ints(args: &Args) {
     let vecs = read_ndjson(args.get("vec"));
     let mut out = Ndjson::create(args.get("out"));
     let (ma, mb) = (alpha::mapper(), beta::mapper());
     for v in &vecs {
+        if v.get("coin").is_some() {
+            let c: u64 = big_from_json(&v["coin"]["v"]).parse().unwrap_or_else(|_| die("coin vector does not fit u64"));
+            let ocbor = output_with_value(c);
+            let o = MultiEraOutput::decode(Era::Babbage, &ocbor).unwrap_or_else(|e| die(&format!("generated output does not decode: {e}")));
+            if o.value().coin() != c {
+                die("generated output carries a different coin");
+            }
+            for ver in ["v1alpha", "v1beta"] {
+                let r = catch(|| if ver == "v1alpha" { alpha::r_output(&ma.map_tx_output(&o, None)) } else { beta::r_output(&mb.map_tx_output(&o, None)) });
+                let (ro, panic) = match r {
+                    Ok(x) => (x, json!("")),
+                    Err(p) => (json!({"coin": {"cls": "missing"}, "assets": []}), json!(p)),
+                };
+                out.ev(json!({"ev": "int", "ver": ver, "via": "coin", "l": v["coin"], "rpc": ro["coin"], "want": v["want"], "panic": panic}));
+                if c != 0 {
+                    let q = ro["assets"].get(0).map(|a| a[2].clone()).unwrap_or(json!({"cls": "missing"}));
+                    out.ev(json!({"ev": "int", "ver": ver, "via": "asset", "l": v["coin"], "rpc": q, "want": v["want"], "panic": panic}));
+                }
+            }
+            continue;
+        }
         let is_int = v.get("l").map(|l| l.get("cls").is_some()).unwrap_or(false);
         let mut cbor = Vec::new();
         if is_int {
@@ -284,7 +328,7 @@ pub fn ints(args: &Args) {
         let o = MultiEraOutput::decode(Era::Babbage, &ocbor).unwrap_or_else(|e| die(&format!("generated output does not decode: {e}")));
         let mut emit = |ver: &str, via: &str, r: Result<Value, String>| {
             let (rpc, panic) = match r {
-                Ok(x) => (x, Value::Null),
+                Ok(x) => (x, json!("")),
                 Err(p) => (json!({"t": "panic"}), json!(p)),
             };
             if is_int {
